@@ -305,6 +305,9 @@ def sized_equals_written(fx):
         [('byte', 'utf-8'), ('byte', default_enc), ('kanji', None)],
         [('numeric', None), ('byte', 'shift_jis'), ('alphanumeric', None), ('byte', 'utf-8')],
         [('byte', 'utf-8'), ('numeric', None), ('byte', 'utf-8'), ('kanji', None), ('byte', 'utf-8')],
+        # adjacent parts that add_segment merges into one segment: their headers are budgeted once
+        [('hanzi', None), ('hanzi', None)], [('byte', 'utf-8'), ('byte', 'utf-8'), ('byte', 'utf-8')], [('kanji', None), ('kanji', None)],
+        [('alphanumeric', None), ('alphanumeric', None)], [('byte', default_enc), ('byte', default_enc)],
     ]
     it0 = Interp(max_steps=50_000_000)
     genv0 = encoder_env(fx.forest, it0, get_eci_assignment_number=lambda enc_: 26)
